@@ -270,13 +270,19 @@ def run(ctx):
             lst.sort(key=lambda co: co[0]["m"])
             prev = None
             for c, o in lst:
+                # runs that go on after a column's breakdown belong to the recorded defect arnoldi_breakdown_continues
+                if flags.get("arnoldi_breakdown_continues") and any(G.overrun_columns(c)[0]):
+                    continue
                 X0 = c["X0"] if c["X0"] is not None else np.zeros_like(c["B"])
                 res = np.linalg.norm(c["B"] - c["A"] @ o["x"], axis=0)
                 r0 = np.linalg.norm(c["B"] - c["A"] @ X0, axis=0)
+                # same allowances as the minimal-residual clause: caller's tol and the accuracy attainable in binary64
+                floor = 200 * 2.2e-16 * (np.linalg.norm(c["A"], 2) * np.linalg.norm(o["x"], axis=0) + np.linalg.norm(c["B"], axis=0))
                 if prev is not None:
                     mono += 1
-                    if np.any(res > prev * (1 + 1e-6) + (1e-6 + 30 * c["tol"] * c["kappa"]) * r0):
+                    if np.any(res > prev * (1 + 1e-6) + (1e-6 + 30 * c["tol"] * c["kappa"]) * r0 + floor):
                         mism.append(dict(oracle_fail=True, case=describe(c, o), failed_clauses=["residual increases with max_iters: %s after %s" % (res.tolist(), prev.tolist())], model_disagrees=False))
+                        dump_case(c, o)
                 prev = res
     for c, o in list(zip(cases, obs))[:ctx.budget(120, 800)]:
         if o.get("ok") and (c["X0"] is None or not c["vector_api"]):
